@@ -38,7 +38,7 @@ const TOKEN_L0: i32 = 0x5F00;
 #[derive(Serialize, Deserialize, Clone, Debug, PartialEq, Eq, Hash)]
 struct Case {
     base: String,
-    /// "none" | "import" | "built" | "delete"
+    /// "none" | "import" | "built" | "delete" | "delete-import"
     before: String,
     after: String,
     name: Option<String>,
@@ -53,7 +53,7 @@ struct Case {
 const TYPES7: [&str; 7] = ["i32", "i64", "f32", "f64", "v128", "funcref", "externref"];
 const LOCAL_TYPES: [&str; 4] = ["i32", "i64", "v128", "externref"];
 const BODY_OPS: [&str; 5] = ["nop", "const", "lget", "block", "call"];
-const EDITS: [&str; 4] = ["none", "import", "built", "delete"];
+const EDITS: [&str; 5] = ["none", "import", "built", "delete", "delete-import"];
 
 fn dt(t: &str) -> DataType {
     match t {
@@ -79,14 +79,17 @@ struct Base {
     call: Option<(u32, Result<i32, &'static str>)>,
     /// a local function nothing references
     delete: Option<u32>,
+    /// an imported function nothing references
+    delete_import: Option<u32>,
 }
 const BASES: [Base; 4] = [
-    Base { name: "empty", wat: "(module)", call: None, delete: None },
+    Base { name: "empty", wat: "(module)", call: None, delete: None, delete_import: None },
     Base {
         name: "2locals",
         wat: "(module (func i32.const 0x5F00 drop) (func i32.const 0x5F01 drop))",
         call: Some((0, Ok(TOKEN_L0))),
         delete: Some(1),
+        delete_import: None,
     },
     Base {
         name: "2imports+2locals",
@@ -94,12 +97,14 @@ const BASES: [Base; 4] = [
                  (func $l0 i32.const 0x5F00 drop) (func $l1 i32.const 0x5F01 drop))"#,
         call: Some((2, Ok(TOKEN_L0))),
         delete: Some(3),
+        delete_import: Some(1),
     },
     Base {
         name: "imports-only",
         wat: r#"(module (import "e" "i0" (func)) (import "e" "i1" (func (param i32))))"#,
         call: Some((0, Err("i0"))),
         delete: None,
+        delete_import: Some(1),
     },
 ];
 fn base(name: &str) -> Option<(&'static Base, &'static [u8])> {
@@ -178,6 +183,9 @@ fn apply_edit<'a>(m: &mut Module<'a>, b: &Base, which: &str, aux_token: i32) {
         }
         "delete" => {
             m.delete_func(FunctionID(b.delete.expect("harness: delete on a base without target")));
+        }
+        "delete-import" => {
+            m.delete_func(FunctionID(b.delete_import.expect("harness: delete-import on a base without target")));
         }
         _ => panic!("harness: unknown edit {}", which),
     }
@@ -300,6 +308,8 @@ fn applicable(c: &Case) -> bool {
     };
     !((c.before == "delete" || c.after == "delete") && b.delete.is_none())
         && !(c.before == "delete" && c.after == "delete")
+        && !((c.before == "delete-import" || c.after == "delete-import") && b.delete_import.is_none())
+        && !(c.before == "delete-import" && c.after == "delete-import")
         && !(c.body.iter().any(|o| o == "call") && b.call.is_none())
         && !(c.body.iter().any(|o| o == "lget") && c.params.is_empty())
 }
@@ -315,6 +325,9 @@ fn run_case(c: &Case) -> Outcome {
     }
     if c.before == "delete" && c.after == "delete" {
         return Outcome::skip("delete twice: only one unreferenced local function");
+    }
+    if ((c.before == "delete-import" || c.after == "delete-import") && b.delete_import.is_none()) || (c.before == "delete-import" && c.after == "delete-import") {
+        return Outcome::skip("delete-import: no (second) unreferenced imported function");
     }
     if c.body.iter().any(|o| o == "call") && b.call.is_none() {
         return Outcome::skip("call: base has no function of type [] -> []");
@@ -571,7 +584,7 @@ pub fn check(tier: Tier) -> i32 {
     let body_len = tier.pick(2usize, 3usize);
     let mut run = Run::new("C12", tier, "model_checking");
     run.rule = format!(
-        "FunctionBuilder::new + add_local* + helpers + [set_name] + finish_module, returned id exported; history axes full product: 4 bases (empty, 2 locals, 2 imports + 2 locals with names, imports only) x edit before x edit after (none, add_import_func, another built function, delete an unreferenced local) x name set/unset; content axes: 3249 signatures (<= 2 params x <= 2 results over i32 i64 f32 f64 v128 funcref externref), 85 local lists (<= 3 over i32 i64 v128 externref), all bodies of <= {} stack-neutral helpers (nop; i32.const+drop; local.get 0+drop; block..end; call of a []->[] function) followed by one constant per result; {}; inapplicable combinations (delete without a local function, call without callee, local.get without param) are not part of the space; non-trivial class = (base, before>after, named?, signature shape, run-length pattern of locals, body helper list)",
+        "FunctionBuilder::new + add_local* + helpers + [set_name] + finish_module, returned id exported; history axes full product: 4 bases (empty, 2 locals, 2 imports + 2 locals with names, imports only) x edit before x edit after (none, add_import_func, another built function, delete an unreferenced local, delete an unreferenced imported function) x name set/unset; content axes: 3249 signatures (<= 2 params x <= 2 results over i32 i64 f32 f64 v128 funcref externref), 85 local lists (<= 3 over i32 i64 v128 externref), all bodies of <= {} stack-neutral helpers (nop; i32.const+drop; local.get 0+drop; block..end; call of a []->[] function) followed by one constant per result; {}; inapplicable combinations (delete without a local function, call without callee, local.get without param) are not part of the space; non-trivial class = (base, before>after, named?, signature shape, run-length pattern of locals, body helper list)",
         body_len,
         tier.pick(
             "quick: history product x (base content [i32]->[i32] / no locals / empty body + every single content deviation) + base history x (<= 2 content deviations)",
